@@ -295,6 +295,9 @@ class GridWeighted(Grid):
         else:
             raise TypeError("The input should be a list, tuple or a single int, float value")
 
+        # The weighted grid points depend on the weights
+        self._cache['gridptsw'][:] = []
+
     def reset(self):
         """ Resets the grid. """
         super(GridWeighted, self).reset()
@@ -317,12 +320,14 @@ class GridWeighted(Grid):
 
         # Start adding weights, if not cached
         if not self._cache['gridptsw']:
-            for idx, cols in enumerate(self._grid_points):
+            idx = 0  # weights are stored in the same order as the grid points, v-index varies first
+            for cols in self._grid_points:
                 weighted_gp_row = []
                 for row in cols:
                     temp = [r * self._weights[idx] for r in row]
                     temp.append(self._weights[idx])
                     weighted_gp_row.append(temp)
+                    idx += 1
                 self._cache['gridptsw'].append(weighted_gp_row)
 
         return self._cache['gridptsw']
